@@ -207,6 +207,21 @@ Definition sort_name (e : tent) : bytes := match snd e with None => fst e ++ [SL
 (* Commit: the tree recorded is BuildTree of the index as it is *)
 Definition g_commit_files (s : state) : list (path * fmode * hash) := tree_files (build_trees (st_index s)).
 
+(* Tree.Encode runs Tree.Validate first: a symbolic link named like one of git's
+   metadata files makes BuildTree, hence Commit, fail (the HFS+/NTFS disguises
+   of these names are not modelled; duplicate / unsorted entries cannot arise
+   from an index without directory/file conflicts) *)
+Definition dot_meta : list bytes :=
+  map bytes_of_string [".gitmodules"; ".gitattributes"; ".gitignore"; ".mailmap"]%string.
+Definition base_name (p : path) : bytes := last (split_slash p []) [].
+Definition symlink_meta (e : ientry) : bool :=
+  match ie_mode e with
+  | MLink => negb (h_cid (ie_hash e) =? zero_cid) && existsb (bytes_eqb (base_name (ie_path e))) dot_meta
+  | _ => false
+  end.
+Definition g_commit (s : state) : option (list (path * fmode * hash)) :=
+  if existsb symlink_meta (st_index s) then None else Some (g_commit_files s).
+
 (* ------------------------------------------------------------ correspondence entry points *)
 
 Definition out_mode (m : fmode) : out := OSym (match m with MReg => "f" | MExec => "x" | MLink => "l" end).
@@ -239,9 +254,13 @@ Definition c28_mv (tbl : list string) (s : state) (a b : string) : out := out_re
 Definition c28_clean (tbl : list string) (s : state) (dir : bool) : out := out_res tbl (g_clean s dir).
 Definition c28_commit (tbl : list string) (s : state) : out :=
   let t := map unhex tbl in
-  OList [OSym "ok";
-         OList (map (fun '(p, m, h) => OList [OBytes p; out_mode m; OBytes (content_of t (h_cid h))])
-                    (sort_by (fun x => fst (fst x)) (g_commit_files s)))].
+  match g_commit s with
+  | None => OList [OSym "err"; OList []]
+  | Some files =>
+    OList [OSym "ok";
+           OList (map (fun '(p, m, h) => OList [OBytes p; out_mode m; OBytes (content_of t (h_cid h))])
+                      (sort_by (fun x => fst (fst x)) files))]
+  end.
 
 (* ------------------------------------------------------------ clean: empty directories *)
 
